@@ -178,6 +178,8 @@ class Type2Tag(Tag):
             while offset < data_area_size + 16:
                 while (offset) in skip_bytes:
                     offset += 1
+                if offset >= data_area_size + 16:
+                    break
 
                 try:
                     tlv = read_tlv(tag_memory, offset, skip_bytes)
@@ -203,6 +205,13 @@ class Type2Tag(Tag):
                     else:
                         log.debug("memory tlv has wrong length")
                 elif tlv_t == 3:
+                    # the value bytes must fit into the data area
+                    head = 4 if tag_memory[offset+1] == 0xFF else 2
+                    room = set(range(offset + head, data_area_size + 16))
+                    if ((offset + head > data_area_size + 16
+                         or tlv_l > len(room - skip_bytes))):
+                        log.debug("ndef message tlv exceeds the data area")
+                        return None
                     ndef = tlv_v
                     break
                 elif tlv_t == 254:
